@@ -79,7 +79,8 @@ def encode_doc(text: str, enc: str) -> bytes:
         import re
 
         if text.lstrip("\ufeff \r\n\t").startswith("<?xml"):
-            text = re.sub(r"<\?xml[^?]*\?>", f'<?xml version="1.0" encoding="{declared}"?>', text, count=1)
+            # (a declaration must be the very first thing in the file: white space the UTF-8 variant carried in front is dropped)
+            text = re.sub(r"<\?xml[^?]*\?>", f'<?xml version="1.0" encoding="{declared}"?>', text.lstrip("\ufeff \r\n\t"), count=1)
         else:
             text = f'<?xml version="1.0" encoding="{declared}"?>' + text.lstrip("\ufeff \r\n\t")
     if enc == "latin-1":
